@@ -15,6 +15,7 @@ from .recode import (
     Conformer,
     adapt_function,
     generate_dispatch,
+    make_dynamic_call,
     rename_code,
 )
 from .typemap import MultiTypeMap
@@ -683,7 +684,7 @@ class Ovld:
         return self.dispatch(*args, **kwargs)
 
     @_setattrs(rename="next")
-    def next(self, *args):
+    def next(self, *args, **kwargs):
         """Call the next matching method after the caller, in terms of priority or specificity."""
         fr = sys._getframe(1)
         if not self._compiled and not any(
@@ -694,9 +695,11 @@ class Ovld:
             # caller is one of the methods this table dispatched to: then the
             # table must not be rebuilt from under it
             self.ensure_compiled()
-        key = (fr.f_code, *map(subtler_type, args))
-        method = self.map[key]
-        return method(*args)
+        if self.argument_analysis.is_method and "self" in fr.f_locals:
+            # self.f.next(x) inside a method: the receiver is the caller's
+            args = (fr.f_locals["self"], *args)
+        # The same key as call_next builds (lookup per position, keywords)
+        return make_dynamic_call(self)(fr.f_code, *args, **kwargs)
 
     def __repr__(self):
         return f"<Ovld {self.name or hex(id(self))}>"
